@@ -213,7 +213,7 @@ def run(tier, seed, t0):
         acc.merge(a)
     # the byte-array <-> string casts of the interner (cached UTF-8 validity, shared storage) under the monitors
     sanit.run_pass(acc, PROP, tier, seed, extra_items=[sanit.item(c) for c in CAST_JOBS],
-                   quick={"asan": 120, "miri": 16}, thorough={"asan": 2400, "memcheck": 480, "miri": 256})
+                   quick={"asan": 120, "miri": 16}, thorough={"asan": 2400, "memcheck": 320, "miri": 128})
     return runner.finish(
         PROP, tier, seed, "exploration", acc, t0,
         rule="strings of length 0..12 over {a, b, ',', ' ', é, ß, 漢, 😀, combining mark} plus hand-picked ones (overlapping "
